@@ -24,6 +24,10 @@ BlockStreamSize(n, B) == n + CrcSize * Ceil(n, B)
 BlockSizes(n, B) == [k \in 1..Ceil(n, B) |-> IF k < Ceil(n, B) THEN B ELSE n - B * (Ceil(n, B) - 1)]
 FileSize(p, B) == HeaderSize + BlockStreamSize(p, B) + TailSize
 
+\* version 1 (read side only): header block ++ payload, one CRC32 over the whole payload kept in the
+\* header, checked when the reader is closed; no blocks, no tail
+V1FileSize(p) == HeaderSize + p
+
 \* cumulative ends of complete blocks in the block stream (cut points that leave whole blocks)
 BlockEnds(n, B) == {k * (B + CrcSize) : k \in 0..(Ceil(n, B) - 1)}
 
